@@ -4,6 +4,8 @@
 From Coq Require Import List String NArith Bool.
 From AM Require Import Rust.Ast Gen.Dirs Ref.Tree Proofs.Tree Tie.Dirs Gen.Archive Tie.Archive.
 From AM Require Import Gen.Embed Tie.Embed.
+From AM Require Tie.Watcher.
+From AM Require Import Tie.ArchivePath.
 Import ListNotations.
 
 Theorem C11_dir_ids_are_exactly_the_matching_files : forall t exts d l,
@@ -52,3 +54,10 @@ Theorem C11_code_embed_macro_lists_every_entry :
   fn_body Id_push = expected_Id_push /\
   fn_body embed_extension_of = expected_embed_extension_of.
 Proof. exact embed_macro_as_modelled. Qed.
+
+(* the member paths of an archive are parsed as the model says, `..` and `.` components included:
+   `d/../f.x` is the file f of the root (Tie/ArchivePath.v; finite sweep, bound in the statement) *)
+Theorem C11_code_archive_paths_parsed_as_modelled :
+  forallb (fun p => Tie.Watcher.outcome_eqb (gen_parse zip_register_file p) (ref_parse p) &&
+                    Tie.Watcher.outcome_eqb (gen_parse tar_register_file p) (ref_parse p)) member_paths = true.
+Proof. exact archive_paths_bounded_tie. Qed.
